@@ -109,7 +109,7 @@ def run(tier):
     # ranges ending just after known year-end transitions, several sampling intervals
     tgt = [("pytz",) + t for t in year_end_targets("pytz", pz)] + [("dateutil",) + t for t in year_end_targets("dateutil", dz)]
     rng.shuffle(tgt)
-    intervals = [6, 12, 20, 22]
+    intervals = [6, 12, 20, 22, 24, 36, 48]   # a day or more is legal too (and exercises whole-day arithmetic)
     per_lib = {"pytz": 0, "dateutil": 0}
     for lib, z, y, ts in tgt:
         if per_lib[lib] >= (15 if q else 200):
@@ -172,7 +172,7 @@ def run(tier):
         "distinct_nontrivial": tot.get("changes_bracketed", 0),
         "rule": "the real pytz and dateutil TestDataGenerators are run for every zone the installed libraries know (2000..2038, 22 h "
                 "sampling), for (zone, year) pairs where the library's own table has a change on Dec 30/31 with ranges ending just "
-                "after it and intervals {6,12,20,22} h, and for a seeded lattice of ranges; oracle = the library's own transition "
+                "after it and intervals {6,12,20,22,24,36,48} h, and for a seeded lattice of ranges; oracle = the library's own transition "
                 "table (pytz _utc_transition_times/_transition_info, dateutil _trans_list_utc/_trans_idx) filtered to changes its "
                 "API exhibits: each must have items at the two adjacent minutes; each item must equal astimezone() at its epoch; "
                 "monthly and year-end samples must exist. Two changes inside one sampling cell and sub-minute changes are counted, "
